@@ -53,6 +53,8 @@ class C08(Prop):
             r = rng.random()
             if r < 0.12:
                 c = self._entry_bypass(rng)
+            elif r < 0.2:
+                c = self._inner_binding_renamed(rng)
             elif r < 0.45:
                 c = gen.gen_dag_program(rng, max_nodes=7, depth=rng.choice([0, 0, 1]), allow_fed_default=rng.random() < 0.3)
             elif r < 0.75:
@@ -89,6 +91,21 @@ class C08(Prop):
                 ops["rtselect"] = rtsel
             yield {"program": program, "known": [[k, v] for k, v in known.items()], "rtselect": rtsel, "ops": ops,
                    "runner": rng.choice(["sync", "async"])}
+
+    @staticmethod
+    def _inner_binding_renamed(rng: random.Random) -> dict:
+        """inner: f(k, u) -> r with k BOUND on the inner graph; the wrapper renames k -> k2 (sometimes not); the outer graph has an unrelated
+        node reading a parameter called k (or k2): the inner binding must be visible under the wrapper's CURRENT name only."""
+        inner = {"name": "inner", "nodes": [{"name": "f", "kind": "fn", "params": [["k", None], ["u", None]], "dataOuts": ["r"], "body": {"b": "tag", "t": "f"}}],
+                 "bound": [["k", rng.randint(1, 9)]]}
+        ren = [["k", "k2"]] if rng.random() < 0.7 else []
+        wrapper = {"name": "w", "kind": "graph", "inner": 0, "inRen": ren, "outRen": []}
+        other_param = rng.choice(["k", "k", "k2"])
+        nodes = [wrapper, {"name": "other", "kind": "fn", "params": [[other_param, None], ["r", None]] if rng.random() < 0.5 else [[other_param, None]],
+                           "dataOuts": ["o"], "body": {"b": "tag", "t": "other"}}]
+        rng.shuffle(nodes)
+        values = [["u", rng.randint(0, 3)], [other_param, rng.randint(10, 19)]]
+        return {"program": [inner, {"name": "outer", "nodes": nodes, "bound": []}], "values": values}
 
     @staticmethod
     def _entry_bypass(rng: random.Random) -> dict:
